@@ -36,22 +36,26 @@ class C13(Prop):
     id = "C13"
     level = "proof"
     design_ref = "§8 C13"
-    level_text = ("Lean theorems about a statement-faithful model of the repaired leaf-elimination loop: whenever it "
-                  "answers True the edge list is a spanning tree of the alternatives on which every voter's k most "
-                  "preferred alternatives are connected for every k (isSPOnTree_sound, by the backward re-attachment "
-                  "argument: b in B(a) is ranked above a by every voter, or second when a is on top); the executable "
-                  "connectivity test and the witness checker are proved equivalent to the declarative path-based "
-                  "definition. The converse (a False answer is always right, Trick's theorem) is compared with the "
-                  "verified brute force over all spanning trees (m <= 6) and planted profiles on every run: tested, not "
-                  "proved")
+    level_text = ("Lean theorems about a statement-faithful model of the repaired leaf-elimination loop: the verdict is exact "
+                  "(isSPOnTree_exact: True iff some spanning tree makes every voter's top-k sets connected; soundness "
+                  "isSPOnTree_sound by backward re-attachment, completeness isSPOnTree_complete = Trick's theorem: a "
+                  "last-ranked alternative is a leaf of every admissible tree and its neighbour lies in B(a)); a returned "
+                  "edge list is always such a tree; the executable connectivity test and the witness checker are proved "
+                  "equivalent to the declarative path-based definition. The model is compared with the real function on "
+                  "every case (verdict; witnesses by validity), the real answers are judged by the verified checker and "
+                  "the brute force over all spanning trees (m <= 6)")
     level_note = ("Lean kernel + standard axioms; hand-written model tied to the code by the correspondence check; Python "
-                  "set iteration order is not modelled (witnesses are compared by validity only); exactness of 'False' "
-                  "rests on differential testing")
+                  "set iteration order is not modelled (witnesses are compared by validity only)")
     theorems = [
         "PrefVerif.C13.connectedIn_iff",
         "PrefVerif.C13.sptWitness_iff",
         "PrefVerif.C13.isSPOnTree_sound",
         "PrefVerif.C13.isSPOnTree_spanning",
+        "PrefVerif.C13c.isSPOnTree_complete",
+        "PrefVerif.C13c.isSPOnTree_exact",
+        "PrefVerif.C13c.isSPOnTree_none_iff",
+        "PrefVerif.C13c.getB_ne_nil_of_treeSP",
+        "PrefVerif.C13c.good_of_SPTOn",
     ]
     rule = ("exhaustive: all profiles of <= 3 distinct orders over 3 alternatives and <= 2 over 4; random m<=6, n<=5 "
             "against brute force over spanning trees; planted tree-single-peaked profiles up to m=25 and one-swap "
